@@ -167,9 +167,12 @@ class Task:
             self.execute()
             self.finish()
         except OSError:
+            # Socket errors are dealt with inside the channel and never get
+            # here; an OSError at this level was raised by the application
+            # (or while buffering its output) and has to be reported like any
+            # other application failure, whatever log_socket_errors says.
             self.close_on_finish = True
-            if self.channel.adj.log_socket_errors:
-                raise
+            raise
 
     @property
     def has_body(self):
